@@ -1,5 +1,6 @@
 import TlsModel.Proto
 import TlsModel.ErrPath
+import TlsModel.Flights
 /-
   Driver for C08 (line protocol, tokens `key=value` after the op).
 
@@ -16,7 +17,7 @@ import TlsModel.ErrPath
     decomp declared= clen= known= avail= complete= corrupt= [old=1]  -> accepted=0|1 produced=<n> alert=<d|->
   Extension values: `-` absent, `D` duplicated, otherwise the value (see the parsers below).
 -/
-open Tls Tls.ErrPath
+open Tls Tls.ErrPath Tls.Flights
 
 def kv (toks : List String) : List (String × String) :=
   toks.filterMap fun t =>
@@ -200,6 +201,37 @@ def outcomeOut : Outcome → String
   | .blocked => "blocked"
   | .outOfFuel => "outOfFuel"
 
+/- flights: `items=` is a `;`-separated list of items, each a `,`-separated list of k:v with
+   c (ctype) h (htype) p (parse) ccs (bytes a.b) b (four 0/1) n (n1.n2.n3) s (text, _ for space)
+   e1 (-|D|N|<n>) x1 (-|D|L<a.b>) -/
+def dotNats (s : String) : Option (List Nat) :=
+  if s == "" then some [] else (s.splitOn ".").mapM String.toNat?
+
+def itemOf (tok : String) : Option Item := do
+  let m := (tok.splitOn ",").filterMap fun t =>
+    match t.splitOn ":" with
+    | [k, v] => some (k, v)
+    | [k] => some (k, "")
+    | _ => none
+  let g := fun k d => (look m k).getD d
+  let bs := (g "b" "1111").toList
+  let ns ← dotNats (g "n" "0.0.0")
+  let e1 ← extOf (g "e1" "-") optNat
+  let x1 ← extOf (g "x1" "-") (fun s => if s.startsWith "L" then dotNats (s.drop 1).toString else none)
+  pure { ctype := ← (g "c" "22").toNat?, htype := ← (g "h" "0").toNat?, parse := ← (g "p" "0").toNat?,
+         ccs := ← dotNats (g "ccs" ""),
+         b1 := bs.getD 0 '1' == '1', b2 := bs.getD 1 '1' == '1', b3 := bs.getD 2 '1' == '1', b4 := bs.getD 3 '1' == '1',
+         n1 := ns.getD 0 0, n2 := ns.getD 1 0, n3 := ns.getD 2 0, s1 := (g "s" "").replace "_" " ", e1 := e1, x1 := x1 }
+
+def itemsOf (s : String) : Option (List Item) :=
+  if s == "-" || s == "" then some [] else (s.splitOn ";").mapM itemOf
+
+def outOut : Out → String
+  | .alert d m => "alert:" ++ toString d ++ ":" ++ m.replace " " "_"
+  | .blocked => "blocked"
+  | .pass => "pass"
+  | .escape e => escOut e
+
 def handle : List String → Option String
   | "err" :: rest => do
     let m := kv rest
@@ -235,6 +267,37 @@ def handle : List String → Option String
   | "sh" :: rest => do
     let (c, h) ← shOf (kv rest)
     some (verdictOut (shChecks c h))
+  | "fl13s" :: rest => do
+    let m := kv rest
+    some (outOut (server13 ⟨← boolOf m "reqcert", ← boolOf m "compress"⟩ (← itemsOf (← look m "items"))))
+  | "fl13c" :: rest => do
+    let m := kv rest
+    let c : Cli13 := ⟨← boolOf m "compress", ← boolOf m "rsl", ← boolOf m "havecert", ← boolOf m "salpn",
+                      ← boolOf m "uhb", ← boolOf m "hbcb", ← boolOf m "dc"⟩
+    some (outOut (client13 c (← itemsOf (← look m "items"))))
+  | "fl12c" :: rest => do
+    let m := kv rest
+    let c : Cli12 := ⟨← boolOf m "certsuite", ← boolOf m "ske", ← boolOf m "dh", ← boolOf m "v12"⟩
+    some (outOut (client12 c (← itemsOf (← look m "items"))))
+  | "fl12s" :: rest => do
+    let m := kv rest
+    some (outOut (server12 ⟨← boolOf m "reqcert", ← boolOf m "v12"⟩ (← itemsOf (← look m "items"))))
+  | "hrr" :: rest => do
+    let m := kv rest
+    let h : Hrr :=
+      { keyShare := ← optList (← look m "ks1"), supGroups := ← optList (← look m "sg1"),
+        acceptable := ← csvNats (← look m "acc"), parse2 := ← natOf m "p2",
+        keyShare2 := ← extOf (← look m "ks2") optList, cookie := ← natOf m "cookie",
+        pskBoth := ← boolOf m "pskboth", pskLast2 := ← boolOf m "psklast", sameOtherwise := ← boolOf m "same" }
+    some (outOut (hrrChecks h))
+  | "resume" :: rest => do
+    let m := kv rest
+    let r : Resume :=
+      { requested := ← boolOf m "req", found := ← boolOf m "found", cipherOffered := ← boolOf m "co",
+        srpSame := ← boolOf m "srp", sniSame := ← boolOf m "sni", etmOk := ← boolOf m "etm",
+        emsOld := ← boolOf m "emsold", emsNew := ← boolOf m "emsnew", renegoNonEmpty := ← boolOf m "reneg",
+        alpnWanted := ← boolOf m "alpnw", alpnCommon := ← boolOf m "alpnc", heartbeat := ← natOf m "hb" }
+    some (outOut (resumeChecks r))
   | "decomp" :: rest => do
     let m := kv rest
     let z : ZStream := ⟨← natOf m "avail", ← boolOf m "complete", ← boolOf m "corrupt"⟩
